@@ -48,7 +48,8 @@ ASSUMPTIONS = [
     "controlled / dagger / integer powers (no sympy matrix exp or fractional power: they can hang)",
     "library == is demanded only when parameters are exactly representable (Python numbers, symbols, rationals, "
     "expressions whose Float atoms survive str()); symbol names are identifiers, no Python keywords; custom gate "
-    "names avoid built-in names, wrapper markers and the globals of _builtin_gates",
+    "names avoid built-in names, the globals of _builtin_gates and the bare wrapper markers (Control, Exponential, Dagger, ^) "
+    "but may contain them (P_Dagger, Y^0.5, Control2, exp^P)",
     "files: a target / source is a path (read and written as UTF-8 by the library) or a TEXT file object; a file "
     "object is read back with the encoding it was written with, or by path when it was written as ascii / utf-8 "
     "(nothing is demanded of a latin-1 file read as UTF-8, nor of binary handles: Readable.read returns str); "
@@ -1017,7 +1018,11 @@ BRANCHES = ["_special_gate_from_dict:controlled", "_special_gate_from_dict:dagge
 
 
 # ============================================================================ generators
-CUSTOM_NAMES = ["Foo", "U", "V", "MyGate", "SGD", "Xx", "sqrtX", "RXX", "G_1", "Rot", "custom_gate", "CX2"]
+CUSTOM_NAMES = ["Foo", "U", "V", "MyGate", "SGD", "Xx", "sqrtX", "RXX", "G_1", "Rot", "custom_gate", "CX2",
+                # names that CONTAIN what the serialised form uses to mark wrappers (a dagger is written "<name>_Dagger",
+                # a power carries "^", controlled gates are called "Control", exponentials "Exponential"): a gate is
+                # what its dictionary says it is, not what its name looks like
+                "P_Dagger", "Y^0.5", "Control2", "myDaggerGate", "exp^P", "G^", "Controlled", "Exponential_1", "c-P"]
 DEF_SYMBOLS = ["a", "b", "c", "omega", "kappa", "theta", "gamma", "beta", "S", "N", "Q", "O", "zeta", "lambda_",
                "x[3]", "x[10]", "params[0]", "y"]
 
@@ -1026,8 +1031,7 @@ def _safe_custom_names():
     from orquestra.quantum.circuits import _builtin_gates as B
 
     banned = set(vars(B))
-    return [n for n in CUSTOM_NAMES if n not in banned and "Dagger" not in n and "^" not in n
-            and n not in ("Control", "Exponential")]
+    return [n for n in CUSTOM_NAMES if n not in banned and n not in ("Control", "Exponential", "Dagger", "^")]
 
 
 def rand_def(rng, nprng, name=None, kind=None, sym_names=None):
